@@ -190,10 +190,17 @@ class SArr(PyObj):
         raise PyRaise(ExcValue('AttributeError', ('ndarray.%s' % name,)))
 
     def snapshot(self):
+        if getattr(self, 'view_of', None) is not None:
+            # freeze the array this view reads through
+            base, fi = self.view_of
+            b = base.snapshot()
+            fv = SArr(self.name + "'", self.shape_, lambda idx: b.at(fi(idx)), lambda idx: b.isnan(fi(idx)))
+            fv.writes = []
+            return fv
         frozen = SArr(self.name + "'", self.shape_, self.elem, self.blank0)
         frozen.writes = list(self.writes)
         for k_, v_ in self.__dict__.items():
-            if k_ not in ('name', 'shape_', 'elem', 'writes', 'blank0'):
+            if k_ not in ('name', 'shape_', 'elem', 'writes', 'blank0', 'view_of'):
                 setattr(frozen, k_, v_)
         return frozen
 
@@ -206,7 +213,8 @@ class SArr(PyObj):
     def zip_(self, ctx, xs):
         if all(isinstance(x, SArr) and len(x.shape_) == 1 for x in xs):
             return ZipArr(list(xs))
-        raise Undecided("zip of arrays with other iterables")
+        cols = [ctx.interp.iterate(x) for x in xs]
+        return [tuple(t) for t in zip(*cols)]
 
     def _axes(self, ctx, key):
         if not isinstance(key, tuple):
@@ -249,9 +257,15 @@ class SArr(PyObj):
                 from pyvc.values import NaN as _NaN
                 return _NaN
             return v
-        # NOTE: numpy basic slices are views; reads through this object see later writes to the base as well
-        return SArr(self.name + "[view]", vshape, lambda idx: base.at(full_index(idx)),
-                    lambda idx: base.isnan(full_index(idx)))
+        if any(isinstance(a, Pick) for a in axes):
+            base = self.snapshot()        # advanced indexing copies
+            return SArr(self.name + "[picked]", vshape, lambda idx: base.at(full_index(idx)),
+                        lambda idx: base.isnan(full_index(idx)))
+        # numpy basic slices are views: reads through this object see later writes to the base; writes go to the base
+        v = SArr(self.name + "[view]", vshape, lambda idx: base.at(full_index(idx)),
+                 lambda idx: base.isnan(full_index(idx)))
+        v.view_of = (base, full_index)
+        return v
 
     def iter_(self, ctx):
         n = self.shape_[0]
@@ -385,6 +399,12 @@ class ZipArr(PyObj):
     def tolist_(self, ctx):
         return self
 
+    def iter_(self, ctx):
+        n = self.arrs[0].shape_[0]
+        if isinstance(n, int):
+            return [tuple(a.at((k,)) for a in self.arrs) for k in range(n)]
+        raise Undecided("iteration over a zip of arrays of symbolic length")
+
     def to_array(self, ctx):
         arrs = [a.snapshot() for a in self.arrs]
         n = arrs[0].shape_[0]
@@ -454,7 +474,19 @@ def np_array(ctx, x, *a, **k):
         return x.snapshot()
     if isinstance(x, ZipArr):
         return x.to_array(ctx)
-    if isinstance(x, list) and x and all(isinstance(r, tuple) and all(isinstance(v, (int, float, Sym, NaNType)) for v in r) for r in x):
+    if isinstance(x, (list, tuple)) and x and all(isinstance(v, (int, float, Sym)) and not isinstance(v, bool) for v in x):
+        vals = list(x)
+
+        def el(idx):
+            i = idx[0]
+            if isinstance(i, int):
+                return vals[i]
+            r = vals[-1]
+            for q in range(len(vals) - 2, -1, -1):
+                r = ite(i == q, vals[q], r)
+            return r
+        return SArr(uid("vals"), (len(vals),), el)
+    if isinstance(x, list) and x and all(isinstance(r, (tuple, list)) and all(isinstance(v, (int, float, Sym, NaNType)) for v in r) for r in x):
         rows = [tuple(r) for r in x]
         w = len(rows[0])
 
